@@ -53,7 +53,7 @@ class World:
     ]
     PROBES_EXPECTED = ["expand-multi-copy", "expand-exact-multiple", "expand-max-1", "batches-multi", "batch-uneven-last", "over-delivery",
                        "peer-fault", "represent-topup", "represent-eliminate", "represent-exact", "discretise", "discretise-container-reused", "combine-counts", "combine-bitstrings",
-                       "single-circuit", "adversarial-rng", "combine-aliased-records", "foreign-circuits", "represent-eliminate-many"]
+                       "single-circuit", "adversarial-rng", "combine-aliased-records", "foreign-circuits", "represent-eliminate-many", "represent-numpy-shot-number"]
 
     def gen_plan(self, seed, tier):
         r = random.Random(seed)
@@ -89,7 +89,8 @@ class World:
                     mx_shots = None
                 a = {"circs": circs, "shots": mx_shots or [shots_for(mx) for _ in range(k)],
                      "max": (p0["max"] if mx_shots else (mx if op == "expand" else r.choice([1, 2, 3, 4, 10, 0, -1]))),
-                     "foreign": [r.randint(0, 3) for _ in range(k)] if r.random() < 0.25 else None,
+                     "foreign": ([r.randint(0, 3) for _ in range(k)] if r.random() < 0.5 else [r.randint(1, 3)] * k) if r.random() < 0.25 else None,
+                     "foreign_kind": r.choice(["seq", "seq", "tuple"]),
                      "via": r.choice(["counts", "bitstrings"]), "batchrun": r.random() < 0.5, "memo": r.random() < 0.35,
                      "nptype": r.choice([None, None, None, None, "i64", "i32", "i16"]), "huge_max": r.random() < 0.3}
                 s = {"op": op, "args": a}
@@ -131,7 +132,8 @@ class World:
                 if all(w == 0 for w in ws):
                     ws[0] = 1.0
                 s = {"op": "represent", "args": {"keys": keys, "weights": ws, "N": n_over or r.choice([1, 2, 3, 5, 10, 33, 100, 257]),
-                                                 "keystyle": r.choice(["tuple", "str"]), "f32": r.random() < 0.12}}
+                                                 "keystyle": r.choice(["tuple", "str"]), "f32": r.random() < 0.12,
+                                                 "Ntype": r.choice([None, None, None, "i64", "i32"])}}
                 if r.random() < 0.12:
                     # subsystems with more than two levels (outcome values up to 12): tuple keys only
                     lv = set()
@@ -200,6 +202,15 @@ class World:
             if all(0 < x <= np.iinfo(dt).max for x in shots) and 0 < mx <= np.iinfo(dt).max:
                 shots = [dt(x) for x in shots]
                 ctx.probe("numpy-integer-counts")
+        foreign = a.get("foreign")
+        if foreign:
+            # circuits of another SDK (the helpers are generic over the circuit type): sized sequences of instructions, or
+            # plain tuples of them; what comes back must be THOSE objects
+            if a.get("foreign_kind") == "tuple":
+                circs = [tuple(("op", i, j) for j in range(k_)) for i, k_ in enumerate(foreign)]
+            else:
+                circs = [ForeignCircuit([("op", i, j) for j in range(k_)]) for i, k_ in enumerate(foreign)]
+            ctx.probe("foreign-circuits")
         if len(circs) == 1:
             ctx.probe("single-circuit")
         ok, res = call(expand_sample_sizes, circs, shots, mx)
@@ -225,6 +236,9 @@ class World:
                     ctx.probe("expand-exact-multiple")
             if mx == 1:
                 ctx.probe("expand-max-1")
+        if foreign:
+            ctx.log("expand", "ok-foreign", _sig=f"{len(circs)}/{mx}")
+            return   # nothing here can run them
         # the client works through what it was given as a queue (pops entries off the returned containers)
         for part in (res[1], res[2]) if ok and isinstance(res, tuple) and len(res) == 3 else ():
             if isinstance(part, list) and part:
@@ -370,6 +384,10 @@ class World:
             return
         before = dict(dist.distribution_dict)
         N = a["N"]
+        if a.get("Ntype"):
+            # the shot number as a numpy integer (what `shots = np.array([...])[i]` or a parsed config gives the caller)
+            N = {"i64": np.int64, "i32": np.int32}[a["Ntype"]](N)
+            ctx.probe("represent-numpy-shot-number")
         ok, res = call(Measurements.get_measurements_representing_distribution, dist, N)
         ctx.called("get_measurements_representing_distribution")
         if not ok and a.get("f32"):
